@@ -1205,6 +1205,11 @@ fn mode_datacodec(_seed: u64, limit: usize) -> Vec<serde_json::Value> {
         (1, Data::constr(0, vec![])), (1, Data::constr(3, vec![Data::integer(1.into())])),
         (2, Data::map(vec![])), (2, Data::map(vec![(Data::integer(1.into()), Data::bytestring(vec![2]))])),
         (3, Data::list(vec![])), (3, Data::list(vec![Data::integer(1.into()), Data::bytestring(vec![1, 2, 3])])),
+        (1, Data::constr(0, vec![Data::integer(0.into())])), (1, Data::constr(0, vec![Data::integer(0.into()), Data::integer(1.into())])),
+        (1, Data::constr(3, vec![Data::integer(1.into()), Data::bytestring(vec![])])), (1, Data::constr(128, vec![Data::integer(1.into())])),
+        (2, Data::map(vec![(Data::integer(1.into()), Data::integer(2.into())), (Data::integer(1.into()), Data::integer(3.into()))])),
+        (2, Data::map(vec![(Data::integer(1.into()), Data::integer(2.into()))])),
+        (3, Data::list(vec![Data::integer(1.into())])), (3, Data::list(vec![Data::integer(1.into()), Data::integer(1.into())])),
         (4, Data::integer(0.into())), (4, Data::integer(BigInt::from(-1) << 70u32)),
         (5, Data::bytestring(vec![])), (5, Data::bytestring(vec![1, 2, 3])), (5, Data::bytestring((0..=70u8).collect())),
     ];
@@ -1251,7 +1256,7 @@ fn mode_datacodec(_seed: u64, limit: usize) -> Vec<serde_json::Value> {
     expect_builtin(&mut fails, F::MkNilData, sem, &[Value::Con(Rc::new(Constant::Unit))], "mkNilData ()".into(), Some(Value::list(Type::Data, vec![])));
     expect_builtin(&mut fails, F::MkNilPairData, sem, &[Value::Con(Rc::new(Constant::Unit))], "mkNilPairData ()".into(), Some(Value::list(Type::Pair(Rc::new(Type::Data), Rc::new(Type::Data)), vec![])));
     expect_builtin(&mut fails, F::MkNilData, sem, &[Value::integer(0.into())], "mkNilData 0".into(), None);
-    println!("BOUNDS mode=datacodec 11 Data shapes: b/unB, list/unList, map/unMap inverse; un* reject other shapes; chooseData; equalsData on all pairs; mkPairData; mkNil*");
+    println!("BOUNDS mode=datacodec 19 Data shapes (incl. duplicate map keys, constructors whose fields are prefixes of one another, index 128): b/unB, list/unList, map/unMap inverse; un* reject other shapes; chooseData; equalsData on all pairs; mkPairData; mkNil*");
     println!("BOUNDS mode=datacodec {n} boundary integers (|n| up to 2^200): unIData.iData, serialiseData.iData against the canonical CBOR integer encoding, equalsData");
     fails
 }
